@@ -12,7 +12,6 @@ import (
 	"os"
 	"bytes"
 	"fmt"
-	"go/token"
 	"go/types"
 	"sort"
 
@@ -24,16 +23,24 @@ const (
 	inlineRounds    = 6
 )
 
-// helperEligible: an unexported, named (not anonymous) module function. (One that is also used as a value is inlined at
+// helperEligible: a named (not anonymous) module function. (One that is also used as a value is inlined at
 // its static call sites but never dropped from the function list.)
 func (p *Prog) helperEligible(g *ssa.Function) bool {
-	if g == nil || g.Parent() != nil || !p.InModule(g) || g.Blocks == nil {
+	if g == nil || !p.InModule(g) || g.Blocks == nil {
 		return false
+	}
+	if par := g.Parent(); par != nil {
+		// a function literal that initialises a package-level variable (var startTimer = func(...) {...}) captures
+		// nothing and is, once calls through the variable are resolved, a helper like any other
+		return par.Name() == "init" && par.Synthetic != "" && len(g.FreeVars) == 0
 	}
 	if g.Synthetic != "" && !strings.HasPrefix(g.Synthetic, "instance of") {
 		return false // wrappers and thunks; a monomorphised instance of a generic helper has an ordinary body
 	}
-	if token.IsExported(g.Name()) || g.Name() == "init" || g.Name() == "main" {
+	// (exported functions too: every function of the validated tree, exported or not, is listed in helpers_baseline.txt
+	// and therefore left alone; what gets inlined is what a later change introduced - a new accessor such as Remaining()
+	// that the function a rule reads now goes through)
+	if g.Name() == "init" || g.Name() == "main" {
 		return false
 	}
 	if g.TypeParams().Len() > 0 && len(g.TypeArgs()) == 0 {
